@@ -1751,6 +1751,142 @@ theorem signed_base_pow_paren_wrong (n e : String) :
 #print axioms signed_base_pow
 #print axioms signed_base_pow_paren_wrong
 
+
+/-! ### Modules: an unqualified identifier in model M denotes M's variable -/
+
+theorem isQual_resolved (m s : String) (hm : m ≠ "") : isQual (resolveName m s) = true := by
+  unfold resolveName
+  by_cases h : isQual s = true
+  · simp [h]
+  · have h' : ¬ ('.' ∈ s.toList) := by simpa [isQual] using h
+    simp [isQual, h', hm]
+
+theorem xlvl_makeAbs (P : XPrec) (m : String) (x : X) : xlvl P (makeAbs m x) = xlvl P x := by
+  cases x <;> simp [makeAbs, xlvl]
+
+/-- the reference generated for an identifier of an equation in model `m`: qualified names as written, unqualified ones as
+`self.memoize('<m>.<name>', t)` — the variable of THAT model (root: the bare name) -/
+theorem gen_makeAbs_id (c : Cfg) (m s : String) (init : Bool) :
+    gen c init (makeAbs m (.id s)) = idToks (resolveName m s) init ∧
+    (isQual s = false → m ≠ "" → resolveName m s = m ++ "." ++ s) ∧ (isQual s = true → resolveName m s = s) ∧
+    resolveName "" s = s := by
+  refine ⟨by simp [makeAbs, gen], ?_, ?_, ?_⟩
+  · intro h hm; simp [resolveName, h, hm]
+  · intro h; simp [resolveName, h]
+  · simp [resolveName]
+
+mutual
+/-- resolution touches the identifiers only, each one by `resolveName`, in place -/
+theorem ids_makeAbs (m : String) (x : X) : ids (makeAbs m x) = (ids x).map (resolveName m) := by
+  match x with
+  | .num _ | .nnum _ | .nothing => simp [makeAbs, ids]
+  | .id s => simp [makeAbs, ids]
+  | .paren e => simp [makeAbs, ids, ids_makeAbs m e]
+  | .neg e => simp [makeAbs, ids, ids_makeAbs m e]
+  | .notp e => simp [makeAbs, ids, ids_makeAbs m e]
+  | .bin k l r => simp [makeAbs, ids, ids_makeAbs m l, ids_makeAbs m r]
+  | .ite cnd a b => simp [makeAbs, ids, ids_makeAbs m cnd, ids_makeAbs m a, ids_makeAbs m b]
+  | .call f args => simp [makeAbs, ids, idsL_makeAbsL m args]
+theorem idsL_makeAbsL (m : String) (xs : List X) : idsL (makeAbsL m xs) = (idsL xs).map (resolveName m) := by
+  match xs with
+  | [] => simp [makeAbsL, idsL]
+  | e :: es => simp [makeAbsL, idsL, ids_makeAbs m e, idsL_makeAbsL m es]
+end
+
+mutual
+/-- resolution does not change the token structure apart from the identifier names: same reading, same grouping -/
+theorem xwl_makeAbs (P : XPrec) (m : String) (x : X) : XWL P (makeAbs m x) = XWL P x := by
+  match x with
+  | .num _ | .nnum _ | .nothing | .id _ => simp [makeAbs, XWL]
+  | .paren e => simp [makeAbs, XWL, xwl_makeAbs P m e]
+  | .neg e => simp [makeAbs, XWL, xwl_makeAbs P m e, xlvl_makeAbs]
+  | .notp e => simp [makeAbs, XWL, xwl_makeAbs P m e, xlvl_makeAbs]
+  | .bin k l r => simp [makeAbs, XWL, xwl_makeAbs P m l, xwl_makeAbs P m r, xlvl_makeAbs]
+  | .ite cnd a b => simp [makeAbs, XWL, xwl_makeAbs P m cnd, xwl_makeAbs P m a, xwl_makeAbs P m b]
+  | .call f args => simp [makeAbs, XWL, xwll_makeAbsL P m args]
+theorem xwll_makeAbsL (P : XPrec) (m : String) (xs : List X) : XWLL P (makeAbsL m xs) = XWLL P xs := by
+  match xs with
+  | [] => simp [makeAbsL]
+  | e :: es => simp [makeAbsL, XWLL, xwl_makeAbs P m e, xwll_makeAbsL P m es]
+end
+
+mutual
+/-- the first prefix wins: a tree that a named model has absolutised is not changed by any later resolution -/
+theorem makeAbs_first_wins (m1 m2 : String) (h1 : m1 ≠ "") (x : X) : makeAbs m2 (makeAbs m1 x) = makeAbs m1 x := by
+  match x with
+  | .num _ | .nnum _ | .nothing => simp [makeAbs]
+  | .id s =>
+    have hq := isQual_resolved m1 s h1
+    have e : resolveName m2 (resolveName m1 s) = resolveName m1 s := by
+      generalize resolveName m1 s = r at hq
+      simp [resolveName, hq]
+    simp [makeAbs, e]
+  | .paren e => simp [makeAbs, makeAbs_first_wins m1 m2 h1 e]
+  | .neg e => simp [makeAbs, makeAbs_first_wins m1 m2 h1 e]
+  | .notp e => simp [makeAbs, makeAbs_first_wins m1 m2 h1 e]
+  | .bin k l r => simp [makeAbs, makeAbs_first_wins m1 m2 h1 l, makeAbs_first_wins m1 m2 h1 r]
+  | .ite cnd a b =>
+    simp [makeAbs, makeAbs_first_wins m1 m2 h1 cnd, makeAbs_first_wins m1 m2 h1 a, makeAbs_first_wins m1 m2 h1 b]
+  | .call f args => simp [makeAbs, makeAbsL_first_wins m1 m2 h1 args]
+theorem makeAbsL_first_wins (m1 m2 : String) (h1 : m1 ≠ "") (xs : List X) :
+    makeAbsL m2 (makeAbsL m1 xs) = makeAbsL m1 xs := by
+  match xs with
+  | [] => simp [makeAbsL]
+  | e :: es => simp [makeAbsL, makeAbs_first_wins m1 m2 h1 e, makeAbsL_first_wins m1 m2 h1 es]
+end
+
+theorem absAll_untouched (es : List Eqn) (st : Nat → Option X) (i : Nat) (h : ∀ e ∈ es, e.cell ≠ i) :
+    es.foldl absStep st i = st i := by
+  induction es generalizing st with
+  | nil => rfl
+  | cons e es ih =>
+    simp only [List.foldl_cons]
+    rw [ih _ (fun e' he' => h e' (by simp [he']))]
+    have := h e (by simp)
+    simp [absStep, Ne.symm this]
+
+theorem owned_aux (es : List Eqn) (st : Nat → Option X) (hd : distinctNats (es.map (·.cell)) = true)
+    (hst : ∀ e ∈ es, st e.cell = none) :
+    ∀ e ∈ es, es.foldl absStep st e.cell = some (makeAbs e.model e.tree) := by
+  induction es generalizing st with
+  | nil => intro e he; simp at he
+  | cons a as ih =>
+    simp only [List.map_cons, distinctNats, Bool.and_eq_true, Bool.not_eq_true', List.contains_eq_mem,
+      decide_eq_false_iff_not, List.mem_map, not_exists, not_and] at hd
+    intro e he
+    simp only [List.foldl_cons]
+    rcases List.mem_cons.mp he with rfl | he'
+    · rw [absAll_untouched as _ e.cell (fun e' he' hc => hd.1 e' he' hc)]
+      simp [absStep, hst e (by simp)]
+    · apply ih _ hd.2 _ e he'
+      intro e' he''
+      have hne : e'.cell ≠ a.cell := fun hc => hd.1 e' he'' hc
+      simp [absStep, hne, hst e' (by simp [he''])]
+
+/-- **Resolution per equation, every document.** If every equation owns its tree object (no sharing between equations —
+whatever their texts, however many models, however often a text is repeated), then after `parse_xmile` the tree of EACH
+equation is its own parse resolved in its own model: every unqualified identifier of an equation in model M has become
+`M.<name>` and denotes M's variable. -/
+theorem owned_resolution (es : List Eqn) (h : ownedOK es = true) :
+    ∀ e ∈ es, absAll es e.cell = some (makeAbs e.model e.tree) ∧
+      ids (makeAbs e.model e.tree) = (ids e.tree).map (resolveName e.model) :=
+  fun e he => ⟨owned_aux es _ h (fun _ _ => rfl) e he, ids_makeAbs e.model e.tree⟩
+
+/-- **Witness: a tree shared between equations with the same text.** Root model, then modules `plantA`, `plantB`, each with
+an equation `rate * 2.0` held in ONE tree object: the first named model's prefix is stamped on all three — module B (and,
+retroactively, the root model) read module A's `rate`. -/
+theorem shared_tree_witness :
+    let t : X := .bin .mul (.id "rate") (.num "2.0")
+    let es : List Eqn := [⟨"", 0, t⟩, ⟨"plantA", 0, t⟩, ⟨"plantB", 0, t⟩]
+    ownedOK es = false ∧
+    (absAll es 0).map ids = some ["plantA.rate"] ∧
+    ids (makeAbs "plantB" t) = ["plantB.rate"] ∧ ids (makeAbs "" t) = ["rate"] := by
+  decide +kernel
+
+#print axioms owned_resolution
+#print axioms makeAbs_first_wins
+#print axioms shared_tree_witness
+
 /-! ### Per program: what a successful validation means -/
 
 theorem validate_sound (c : Cfg) (P : XPrec) (ts : List XTok) (ir x : X)
